@@ -52,7 +52,39 @@ func (s SchemaSchema) applyNamespace() {
 		for _, output := range step.OutputsValue {
 			output.Schema().ApplySelf()
 		}
+		for _, signal := range step.SignalHandlersValue {
+			signal.DataSchemaValue.ApplySelf()
+		}
+		for _, signal := range step.SignalEmittersValue {
+			signal.DataSchemaValue.ApplySelf()
+		}
 	}
+}
+
+// validateReferences checks every scope of every step: all references linked, root objects present and default
+// values decodable.
+func (s SchemaSchema) validateReferences() error {
+	for stepID, step := range s.StepsValue {
+		if err := step.InputValue.ValidateReferences(); err != nil {
+			return fmt.Errorf("step %q input: %w", stepID, err)
+		}
+		for outputID, output := range step.OutputsValue {
+			if err := output.ValidateReferences(); err != nil {
+				return fmt.Errorf("step %q output %q: %w", stepID, outputID, err)
+			}
+		}
+		for signalID, signal := range step.SignalHandlersValue {
+			if err := signal.DataSchemaValue.ValidateReferences(); err != nil {
+				return fmt.Errorf("step %q signal handler %q: %w", stepID, signalID, err)
+			}
+		}
+		for signalID, signal := range step.SignalEmittersValue {
+			if err := signal.DataSchemaValue.ValidateReferences(); err != nil {
+				return fmt.Errorf("step %q signal emitter %q: %w", stepID, signalID, err)
+			}
+		}
+	}
+	return nil
 }
 
 func NewCallableSchema(
